@@ -665,12 +665,13 @@ func runC04(c *Ctx) error {
 		fmt.Printf("replay (20 re-executions of the scenario): %d failures\n", len(c.Rep.Failures))
 		return nil
 	}
-	c04Directed(c)
 	n := c.N(300, 6000)
 	for i := 0; i < n && !c.Rep.ShouldStop(); i++ {
 		cs := c04Case{Seed: c.Rng.U64(), Slots: 1 + c.Rng.Intn(4), Runners: 1 + c.Rng.Intn(4), Bumps: 1 + c.Rng.Intn(12), Strobe: c.Rng.Bool(), Stop: c.Rng.Chance(0.4)}
 		c04One(c, m, cs)
 	}
+	// last: the releases its Stops start run on goroutines nothing waits for, and no recorder is installed after them
+	c04Directed(c)
 	return nil
 }
 
@@ -678,7 +679,6 @@ func runC04(c *Ctx) error {
 // an invalidation's walk over the dependants must not keep the rerunners after it from being re-run.
 func c04Directed(c *Ctx) {
 	rep := c.Rep
-	reactive.VerifHook = nil
 	oldDelay := reactive.WriteThenReadDelay
 	reactive.WriteThenReadDelay = 0
 	defer func() { reactive.WriteThenReadDelay = oldDelay }()
